@@ -35,6 +35,8 @@ def unary_ops(d, mom):
             ("isclose(nearby,loose)", lambda v: v.isclose(v.scale(1.0000001), rtol=1e-3, atol=1e-3)), ("isclose(nearby,tight)", lambda v: v.isclose(v.scale(1.0000001), rtol=1e-12, atol=1e-12)),
             ("numpy.isclose(nearby,loose)", lambda v: np.isclose(v, v.scale(1.0000001), rtol=1e-3, atol=1e-3)),
             ("numpy.isclose(nearby,tight)", lambda v: np.isclose(v, v.scale(1.0000001), rtol=1e-12, atol=1e-12)), ("equal(nearby)", lambda v: v.equal(v.scale(1.0000001))),
+            ("allclose(nearby,atol-only)", lambda v: v.allclose(v.scale(1.0000001), rtol=0.0, atol=1e-3)), ("allclose(nearby,rtol-only)", lambda v: v.allclose(v.scale(1.0000001), rtol=1e-3, atol=0.0)),
+            ("allclose(nearby,tight)", lambda v: v.allclose(v.scale(1.0000001), rtol=1e-12, atol=1e-12)), ("allclose(self)", lambda v: v.allclose(v)),
             ("abs", lambda v: abs(v)), ("v**2", lambda v: v ** 2), ("v**3", lambda v: v ** 3), ("numpy.sqrt", lambda v: np.sqrt(v)), ("numpy.cbrt", lambda v: np.cbrt(v)),
             ("numpy.power(v,3)", lambda v: np.power(v, 3)), ("numpy.absolute", lambda v: np.absolute(v)), ("numpy.square", lambda v: np.square(v)),
             ("to_Vector2D", lambda v: v.to_Vector2D()), ("to_Vector3D", lambda v: v.to_Vector3D()), ("to_Vector4D", lambda v: v.to_Vector4D()),
@@ -96,6 +98,11 @@ OBJECT_FORM = {
     "numpy.isclose(nearby,tight)": lambda v: v.isclose(v.scale(1.0000001), rtol=1e-12, atol=1e-12),
     "numpy.equal": lambda a, b: a.equal(b), "numpy.not_equal": lambda a, b: a.not_equal(b),
     "numpy.isclose": lambda a, b: a.isclose(b, rtol=1e-3, atol=1e-3),
+    "allclose": lambda a, b: a.isclose(b, rtol=1e-3, atol=1e-3), "numpy.allclose": lambda a, b: a.isclose(b, rtol=1e-3, atol=1e-3),
+    "allclose(nearby,atol-only)": lambda v: v.isclose(v.scale(1.0000001), rtol=0.0, atol=1e-3),
+    "allclose(nearby,rtol-only)": lambda v: v.isclose(v.scale(1.0000001), rtol=1e-3, atol=0.0),
+    "allclose(nearby,tight)": lambda v: v.isclose(v.scale(1.0000001), rtol=1e-12, atol=1e-12),
+    "allclose(self)": lambda v: v.isclose(v),
 }
 OP_FILTER = None        # optional predicate on operation names: restricts the lattice to the operations of one property (set before the pool forks)
 
@@ -146,6 +153,18 @@ def compare(F, tag, res, expected, opname, layout_is_array):
                 continue
             ok = AR.ang_close(got_n, exp_n) if n == "phi" else AR.close(got_n, exp_n)
             F.check("C03", f"value/{n}/{tag}", ok, dict(got=str(got_n)[:160], expected=str(exp_n)[:160]))
+    elif opname.startswith(("allclose", "numpy.allclose")):
+        # arr.allclose(...) is the conjunction of the element-wise isclose of the object backend
+        leaves = []
+
+        def walk(e):
+            if isinstance(e, list):
+                for x in e:
+                    walk(x)
+            elif e is not None:
+                leaves.append(bool(e))
+        walk(expected)
+        F.check("C03", f"value/{tag}", isinstance(res, (bool, np.bool_)) and bool(res) == all(leaves), dict(got=str(res)[:80], expected=all(leaves)))
     else:
         got = AR.to_nested(res)
         exp = AR.struct_map_obj(expected, lambda o: o.item() if isinstance(o, np.generic) else o)
@@ -180,6 +199,8 @@ def run_unary(F, system, mom, layouts, seed, extras_layouts=("ak-jagged", "ak-re
         for name, op in unary_ops(d, mom):
             if OP_FILTER is not None and not OP_FILTER(name):
                 continue
+            if layout == "ak-record" and name.startswith("allclose"):
+                continue        # allclose is a method of arrays; a record is a single vector
             if layout.startswith("ak") and name.startswith("numpy.isclose"):
                 continue        # probed separately (known finding C12 'numpy.isclose on Awkward vector arrays is Awkward's field-wise isclose')
             if layout == "ak-record" and name in RECORD_OPERATOR_OPS:
@@ -291,6 +312,8 @@ def run_binary(F, s1, s2, m1, m2, pairings, seed):
                 continue        # probed separately (known finding C05 '@ on Awkward')
             if name in ("a==b", "a!=b", "numpy.equal", "numpy.not_equal") and "ak-record" in (l1, l2):
                 continue        # probed separately (known finding C18 'operators on records')
+            if name == "allclose" and l1 in ("object", "ak-record"):
+                continue        # allclose is a method of arrays only
             if name in ("numpy.isclose", "numpy.allclose") and (l1.startswith("ak") or l2.startswith("ak")):
                 continue        # probed separately (known finding C12 'numpy.isclose on Awkward vector arrays')
             if name in ("a+b", "a-b") and {l1[:2], l2[:2]} == {"ak", "np"}:
@@ -391,4 +414,22 @@ def probes():
         probe("C18", "record-operators/eq", lambda: bool(rec == rec) is True and bool(rec != rec) is False)
         probe("C18", "record-operators/abs-and-power", lambda: AR.close(abs(rec), rec.rho) and AR.close(rec ** 2, rec.rho2) and AR.close(np.sqrt(rec), rec.rho ** 0.5))
         probe("C03", "tau-stored-object-boosted-by-awkward-booster", lambda: AR.close(ak.to_list(o4.boost_p4(a4).t), [[o4.boost_p4(vector.obj(x=1.0, y=2.0, z=3.0, t=10.0)).t], []]))
+    # integer- / float32-typed array operands paired with an object: same result as with float64 columns of the same values
+    # (a scalar that a kernel passes through from the object must keep its value whatever the dtype of the array's columns)
+    o_tau = vector.obj(px=1.0, py=-2.0, pz=3.0, mass=0.75)
+    o_t = vector.obj(px=1.0, py=-2.0, pz=3.0, E=4.25)
+    cols64 = {"px": np.array([1.0, -2.0, 3.0]), "py": np.array([2.0, 1.0, -1.0]), "pz": np.array([-1.0, 2.0, 2.0]), "E": np.array([9.0, 8.0, 7.0])}
+    for dt in (np.int64, np.float32):
+        makers = [("numpy", lambda c: vector.array(c))]
+        if ak is not None:
+            makers.append(("awkward", lambda c: vector.zip({k: ak.Array(v) for k, v in c.items()})))
+        for bname, mk in makers:
+            ref_b, typed_b = mk(cols64), mk({k: v.astype(dt) for k, v in cols64.items()})
+            for oname, o in (("tau-stored", o_tau), ("t-stored", o_t)):
+                for mname in ("boost_p4", "boostCM_of_p4", "add", "subtract"):
+                    def f(mname=mname, o=o, ref_b=ref_b, typed_b=typed_b):
+                        r1, r2 = getattr(o, mname)(ref_b), getattr(o, mname)(typed_b)
+                        return all(AR.close(AR.to_nested(getattr(r1, c)), AR.to_nested(getattr(r2, c)), 1e-6, 1e-6) for c in ("x", "y", "z", "t", "tau"))
+                    for _p in ("C03", "C01", "C09"):
+                        probe(_p, f"typed-columns/{mname}/object({oname})-with-{bname}-{np.dtype(dt).name}", f)
     return out
